@@ -405,21 +405,57 @@ Proof.
 Qed.
 
 #[export] Hint Rewrite fold_left_append_id chop_fold_all chop_slices app_nil_l app_nil_r : pynorm.
+#[export] Hint Rewrite <- app_assoc : pynorm.
 (* gencsv: the equalities gen_py_<name> = ix_<name> already proved in the generated file (added there) *)
 #[export] Hint Rewrite app_nil_l : gencsv.
 
+Lemma py_find_ge s p i : (-1 <= py_find s p i)%Z.
+Proof.
+  unfold py_find. destruct (zlen s <? py_norm (length s) i)%Z; [lia|].
+  assert (0 <= py_norm (length s) i)%Z by (unfold py_norm; destruct (i <? 0)%Z eqn:E; [lia|apply Z.ltb_ge in E; exact E]).
+  destruct (find p (skipn (Z.to_nat (py_norm (length s) i)) s)); lia.
+Qed.
+
+Lemma zlen_ge {A} (l : list A) : (0 <= zlen l)%Z.
+Proof. unfold zlen. lia. Qed.
+
+(* case analysis on every scrutinee (Boolean operators are spelled as matches first) *)
 Ltac gen_break :=
-  repeat (cbn [fst snd orb andb negb] in *;
+  unfold orb, andb, negb in *;
+  repeat (cbn [fst snd] in *;
           match goal with
           | |- ?x = ?x => reflexivity
-          | |- context [match ?x with _ => _ end] => destruct x eqn:?
+          | |- context [match ?x with _ => _ end] =>
+              lazymatch x with
+              | context [match _ with _ => _ end] => fail        (* innermost scrutinee first *)
+              | _ => destruct x eqn:?
+              end
+          | |- context [match ?x with _ => _ end] => destruct x eqn:?   (* e.g. a loop whose functions contain matches *)
           end).
 
+(* the Boolean integer comparisons met on the way, as propositions for lia; the ranges of str.find and len *)
+Ltac gen_arith :=
+  repeat match goal with
+         | H : (_ =? _)%Z = true |- _ => apply Z.eqb_eq in H
+         | H : (_ =? _)%Z = false |- _ => apply Z.eqb_neq in H
+         | H : (_ <? _)%Z = true |- _ => apply Z.ltb_lt in H
+         | H : (_ <? _)%Z = false |- _ => apply Z.ltb_ge in H
+         | H : (_ <=? _)%Z = true |- _ => apply Z.leb_le in H
+         | H : (_ <=? _)%Z = false |- _ => apply Z.leb_gt in H
+         end;
+  repeat match goal with
+         | H : context [py_find ?s ?p ?i] |- _ =>
+             lazymatch goal with _ : (-1 <= py_find s p i)%Z |- _ => fail | _ => pose proof (py_find_ge s p i) end
+         | H : context [zlen ?l] |- _ =>
+             lazymatch goal with _ : (0 <= zlen l)%Z |- _ => fail | _ => pose proof (zlen_ge l) end
+         end.
+
 Ltac gen_leaf :=
-  cbn [fst snd orb andb negb] in *;
+  cbn [fst snd] in *;
   first [ reflexivity | congruence
         | symmetry; apply chop_small; assumption | apply chop_small; assumption
-        | f_equal; first [reflexivity | congruence | lia] | idtac ].
+        | gen_arith; first [ exfalso; lia | repeat f_equal; lia ]
+        | idtac ].
 
 Ltac gen_pointwise :=
   intros; repeat match goal with p : (_ * _)%type |- _ => destruct p end;
